@@ -159,4 +159,10 @@ func (s *Supervisor) handleEvent(event *ObjectEntityWatcherEvent)
   invariant[3] inherited: forall k int :: 0 <= k && k < idx$3 && lv(s, keys$3[k]) ==> inherits[ref(event.Update[keys$3[k]])] == old(inherits[ref(event.Update[keys$3[k]])]) + 1 && inhPrev[ref(event.Update[keys$3[k]])] == (((keys$3[k] in event.Create) && !(old(lv(s, keys$3[k])) && !(keys$3[k] in event.Delete))) ? ref(event.Create[keys$3[k]]) : old(lvVal(s, keys$3[k])))
   invariant[3] others: forall x int :: (forall k int :: 0 <= k && k < idx$3 ==> !(lv(s, keys$3[k]) && ref(event.Update[keys$3[k]]) == x)) ==> inherits[x] == old(inherits[x])
   ensures untouched-names-keep-their-object: forall n string :: lv(s, n) && !(n in event.Update) && !((n in event.Create) && !(old(lv(s, n)) && !(n in event.Delete))) ==> lvVal(s, n) == old(lvVal(s, n))
+
+// the kind an object instance reports: a function of the instance
+ufunc instKind(o int) string
+iface (o Object) Kind() (k string)
+  pure
+  ensures k == instKind(ifaceVal(o))
 @*/
